@@ -182,3 +182,28 @@ func H_C20_schemeless(hostlen, k int) {
 	}
 	expect("schemeless-", d, err, host, segs)
 }
+
+// H_C20_after_caller_edit: an application took the list of reserved hosts from the exported ReservedHosts(),
+// and edited its copy (entry k replaced by an arbitrary string, e.g. to build its own URL table).  Which hosts
+// are Telegram-owned does not change: every owned host still resolves, the edited-in string does not.
+func H_C20_after_caller_edit(k, hostlen int) {
+	lst := ReservedHosts()
+	if k >= len(lst) {
+		verifrt.Assert(len(lst) > 0, "reserved-hosts-listed")
+		return
+	}
+	owned := lst[k]
+	edited := symString(hostlen, hostAlpha)
+	lst[k] = edited
+	segs := [][]string{{"Durov"}, {"joinchat", "AbC-12_"}}[verifrt.Choice(2)]
+	d, err, pn := resolve("https", owned, "", pathOf(segs))
+	verifrt.Assert(!pn, "edit-no-panic")
+	if !pn {
+		expect("edit-owned-", d, err, owned, segs)
+	}
+	d, err, pn = resolve("https", edited, "", pathOf(segs))
+	verifrt.Assert(!pn, "edit-no-panic")
+	if !pn {
+		expect("edit-foreign-", d, err, edited, segs)
+	}
+}
